@@ -2,7 +2,7 @@
 From Coq Require Import List Arith NArith Bool Lia Sorting.Sorted.
 Import ListNotations.
 Require Import MayV.Rt.TimerThread MayV.Rt.TimerThreadInv MayV.Rt.TimerThreadTac MayV.Rt.TimerThreadPresB.
-Open Scope N_scope.
+Local Open Scope N_scope.
 
 (* the effect of one step on the heap / in_use / claims *)
 Inductive heff (s : st) (x : action) (s' : st) : Prop :=
